@@ -130,9 +130,14 @@ func (d *Driver) Snapshot(ctx context.Context) (migrate.RestoreFunc, error) {
 	if !(r == nil || (len(r.Schemas) == 1 && r.Schemas[0].Name == mainFile && len(r.Schemas[0].Tables) == 0)) {
 		return nil, &migrate.NotCleanError{State: r, Reason: fmt.Sprintf("found table %q", r.Schemas[0].Tables[0].Name)}
 	}
-	// Views and triggers are not part of the inspected realm,
-	// but they are removed by the restore function below.
-	rows, err := d.QueryContext(ctx, "SELECT `type`, `name` FROM sqlite_master WHERE `type` IN ('view', 'trigger') LIMIT 1")
+	// The restore function below removes every object of the database, but views, triggers and the
+	// tables skipped by the inspection (its LIKE patterns hide any name starting with "sqlite" or
+	// "libsql" followed by one more character, e.g. "sqlitedb" or "libsql_users") are not part of
+	// the inspected realm. Therefore, ask sqlite_master itself. Only the bookkeeping tables of the
+	// engine are tolerated: names starting with "sqlite_" are reserved by SQLite (sqlite_sequence
+	// cannot be dropped and stays behind after all tables were dropped, as does sqlite_stat1),
+	// and libsql_wasm_func_table exists in every libSQL database.
+	rows, err := d.QueryContext(ctx, "SELECT `type`, `name` FROM sqlite_master WHERE `tbl_name` NOT LIKE 'sqlite\\_%' ESCAPE '\\' AND `tbl_name` <> 'libsql_wasm_func_table' LIMIT 1")
 	if err != nil {
 		return nil, err
 	}
